@@ -95,47 +95,54 @@ pub mod sync {
         }
     }
 
-    /// `std::sync::atomic::AtomicU32` with a scheduling point before every operation.
+    /// `std::sync::atomic::AtomicU32` with a scheduling point before every operation;
+    /// `SITE` selects the site name reported to the callback.
     #[repr(transparent)]
     #[derive(Debug, Default)]
-    pub struct AtomicU32(std::sync::atomic::AtomicU32);
+    pub struct AtomicU32Site<const SITE: u8>(std::sync::atomic::AtomicU32);
 
-    impl AtomicU32 {
+    /// Generic cell (string hash caches).
+    pub type AtomicU32 = AtomicU32Site<0>;
+    /// Reference count in a heap chunk header.
+    pub type ChunkRefCount = AtomicU32Site<1>;
+
+    impl<const SITE: u8> AtomicU32Site<SITE> {
+        const NAME: &'static str = if SITE == 1 { "ChunkRc" } else { "AtomicU32" };
         /// Same as std.
         pub const fn new(v: u32) -> Self {
-            AtomicU32(std::sync::atomic::AtomicU32::new(v))
+            AtomicU32Site(std::sync::atomic::AtomicU32::new(v))
         }
         fn addr(&self) -> usize {
             self as *const Self as usize
         }
         /// Same as std.
         pub fn load(&self, o: Ordering) -> u32 {
-            point("AtomicU32", self.addr(), "load");
+            point(Self::NAME, self.addr(), "load");
             self.0.load(o)
         }
         /// Same as std.
         pub fn store(&self, v: u32, o: Ordering) {
-            point("AtomicU32", self.addr(), "store");
+            point(Self::NAME, self.addr(), "store");
             self.0.store(v, o)
         }
         /// Same as std.
         pub fn fetch_add(&self, v: u32, o: Ordering) -> u32 {
-            point("AtomicU32", self.addr(), "fetch_add");
+            point(Self::NAME, self.addr(), "fetch_add");
             self.0.fetch_add(v, o)
         }
         /// Same as std.
         pub fn fetch_sub(&self, v: u32, o: Ordering) -> u32 {
-            point("AtomicU32", self.addr(), "fetch_sub");
+            point(Self::NAME, self.addr(), "fetch_sub");
             self.0.fetch_sub(v, o)
         }
         /// Same as std.
         pub fn compare_exchange(&self, a: u32, b: u32, s: Ordering, f: Ordering) -> Result<u32, u32> {
-            point("AtomicU32", self.addr(), "compare_exchange");
+            point(Self::NAME, self.addr(), "compare_exchange");
             self.0.compare_exchange(a, b, s, f)
         }
     }
 
-    impl allocative::Allocative for AtomicU32 {
+    impl<const SITE: u8> allocative::Allocative for AtomicU32Site<SITE> {
         fn visit<'a, 'b: 'a>(&self, visitor: &'a mut allocative::Visitor<'b>) {
             visitor.visit_simple_sized::<Self>();
         }
